@@ -93,4 +93,10 @@ TEXT = {
         design_ref='DESIGN.md §5 C09',
         note="partial: the quantifier over 'all type definitions in the supported grammar' is proved over the model's Decl AST; that rustc + the macro implement that logic for real source text is sampled by compilation (generator grammar in the evidence). Type names are compared modulo whitespace (the token printer wraps long types over lines).",
     ),
+    'C03': dict(
+        technique='Lean 4 proof that every value of a derived type (fields in order, skip omitted, compact compact, index byte) is well typed against any faithful registry, composed with the decoder-inverts-encoder theorem + generated declarations with values compiled against /repo, decoded from the real registry and real bytes',
+        level="Proof: SIM.C03.derived_typed / derived_roundtrip (for EVERY declaration of the modelled AST without encoded_as, every instantiation, every value shape of it incl. nested built-ins, recursion and PhantomData members: the registry-only decoder consumes the derived encoding exactly and recovers variant, field names, order and leaves), derived_variant_first_byte, skipped_not_described, and encoded_as_counterexample (the excluded point, machine-checked: description plain u32 vs encoding compact). Tie: generated programs; decodeVal runs on the real registry and real bytes (oracle), Value.encode is compared with the codec derive's bytes (correspondence).",
+        design_ref='DESIGN.md §5 C03, §6',
+        note="partial: rustc, the macro expander and the codec derive are modelled; 'faithful registry' is C02's conclusion transported through the driver's TyExpr->Nat encoding. KNOWN-FINDING: #[codec(encoded_as)] is ignored by the derive.",
+    ),
 }
